@@ -517,7 +517,9 @@ func packTxtString(s string, msg []byte, offset int) (int, error) {
 }
 
 func packOctetString(s string, msg []byte, offset int) (int, error) {
-	if offset >= len(msg) || len(s) > 256*4+1 {
+	// Unlike a character-string an octet field runs to the end of the RDATA and
+	// is not limited to 255 octets; the loop below checks the buffer bounds.
+	if offset >= len(msg) {
 		return offset, ErrBuf
 	}
 	for i := 0; i < len(s); i++ {
